@@ -600,12 +600,13 @@ def indices_to_json_extract(expression: exp.Expression) -> exp.Expression:
         and isinstance(index, exp.Literal)
         and index.this
     ):
+        # the children of a replaced node are not visited by transform, so convert chained indices
+        # eg: v['a'][0] here
+        this = indices_to_json_extract(expression.this)
         if index.is_string:
-            return exp.JSONExtract(this=expression.this, expression=exp.Literal(this=f"$.{index.this}", is_string=True))
+            return exp.JSONExtract(this=this, expression=exp.Literal(this=f"$.{index.this}", is_string=True))
         else:
-            return exp.JSONExtract(
-                this=expression.this, expression=exp.Literal(this=f"$[{index.this}]", is_string=True)
-            )
+            return exp.JSONExtract(this=this, expression=exp.Literal(this=f"$[{index.this}]", is_string=True))
 
     return expression
 
